@@ -1,4 +1,5 @@
 import SSV.Model.SWF
+import SSV.Model.SaltPool
 /-
 Model of the UDP unpacker session logic of ss2022/packet.go:
 `ShadowPacketServerUnpacker.UnpackInPlace` and `ShadowPacketClientUnpacker.UnpackInPlace`,
@@ -19,7 +20,9 @@ open SSV.SWF
 
 def headerTypeClientPacket : Nat := SSV.Gen.C04.HeaderTypeClientPacket
 def headerTypeServerPacket : Nat := SSV.Gen.C04.HeaderTypeServerPacket
-def maxEpochDiff : Int := SSV.Gen.C04.MaxEpochDiff
+/-- the constants of `ValidateUnixEpochTimestamp` as the source has them now -/
+def tsParams : SSV.SaltPool.Params :=
+  { maxEpochDiff := SSV.Gen.C04.MaxEpochDiff, window := SSV.Gen.C04.ReplayWindowDuration }
 /-- `time.Minute` in `time.Since(p.oldServerSessionLastSeenTime) < time.Minute` -/
 def sessionChangeInterval : Nat := SSV.Gen.C04.clientSessionChangeMinInterval
 def nsPerSec : Nat := 1000000000
@@ -37,8 +40,8 @@ structure Packet where
   hdr : Bool
   /-- header type byte -/
   typ : Nat
-  /-- header timestamp, `int64(binary.BigEndian.Uint64(..))` -/
-  ts : Int
+  /-- header timestamp: the raw 64-bit word `binary.BigEndian.Uint64(..)` (the code reads it as `int64`) -/
+  ts : BitVec 64
   /-- client session id field of a server message header (unused in client messages) -/
   csid : Nat
   /-- padding length fits and the SOCKS address parses -/
@@ -54,13 +57,11 @@ def Res.name : Res → String
   | .badType => "type" | .badTimestamp => "timestamp" | .csidMismatch => "csid" | .badRest => "rest"
   | .tooManySessions => "too-many-sessions"
 
-/-- two's-complement wrap of an `int64` result -/
-def wrapI64 (x : Int) : Int := (x + 9223372036854775808) % 18446744073709551616 - 9223372036854775808
-
-/-- `ValidateUnixEpochTimestamp`: `diff := tsEpoch - nowEpoch; diff < -MaxEpochDiff || diff > MaxEpochDiff` is an error -/
-def tsValid (ts : Int) (now : Nat) : Bool :=
-  let diff := wrapI64 (ts - ((now / nsPerSec : Nat) : Int))
-  !(diff < -maxEpochDiff || diff > maxEpochDiff)
+/-- `ValidateUnixEpochTimestamp(b, now)` on 64-bit words exactly as written (wrapping `tsEpoch - nowEpoch`, two
+signed comparisons against `±MaxEpochDiff`): the word-level model shared with C03 (`SaltPool.tsValidWord`);
+the function body and its two UDP call sites are pinned by Gen facts (`srcValidateTimestamp`,
+`udpClientHeaderChecks`, `udpServerHeaderChecks`). -/
+def tsValid (ts : BitVec 64) (now : Nat) : Bool := SSV.SaltPool.tsValid tsParams ts now
 
 /-- `ParseUDPClientMessageHeader`: `none` = header accepted -/
 def parseClientHeader (now : Nat) (p : Packet) : Option Res :=
